@@ -17,13 +17,13 @@ import (
 // C07: Recover / Check on damaged head segments, exhaustive on bytes.
 
 type headImage struct {
-	ver          int
-	times, keys  bool
-	log, idx     []byte
-	nrecs        int
-	recEnds      []int64 // end positions of the records
-	name         string
-	opts         klevdb.Options
+	ver         int
+	times, keys bool
+	log, idx    []byte
+	nrecs       int
+	recEnds     []int64 // end positions of the records
+	name        string
+	opts        klevdb.Options
 }
 
 // buildHead writes a single head segment with the real writer and returns its bytes.
